@@ -58,7 +58,24 @@ func exprStmts(r *Rand, e *Expr, v int64, mode int) []PStmt {
 			if mode == 16 {
 				names = regNames[R16]
 			}
-			if r.Bool() {
+			if r.Chance(1, 3) {
+				// the same displacement next to a base AND an index register (with and without a scale): the operand re-parser has a rule of its own for each form
+				if mode == 16 {
+					sh.Base, sh.Index = Pick(r, []int{3, 5}), Pick(r, []int{6, 7})
+				} else {
+					sh.Index = Pick(r, []int{1, 2, 6, 7})
+					for sh.Index == sh.Base {
+						sh.Index = Pick(r, []int{1, 2, 6, 7})
+					}
+					sh.Scale = Pick(r, []int{1, 1, 2, 4, 8})
+				}
+				mo = xmem(sh, w, false, 0, 0)
+				idx := names[sh.Index]
+				if sh.Scale > 1 {
+					idx += fmt.Sprintf("*%d", sh.Scale)
+				}
+				mo.Text = "[" + names[sh.Base] + "+" + idx + "+" + t + "]"
+			} else if r.Bool() {
 				mo.Text = "[" + names[sh.Base] + "+" + t + "]"
 			} else {
 				mo.Text = "[" + t + "+" + names[sh.Base] + "]"
